@@ -29,7 +29,10 @@ TECHNIQUE = ("explicit-state BFS over constructor/call/mutator histories of the 
 CLAIM = ("For each stateful solver family the operation alphabet (two colliding configurations per family, calls at two times "
          "and two batches, public mutators) is explored breadth-first to closure of the canonical interpreter state or to the "
          "reported depth cap; across families every ordered pair of compound operations is executed; batch independence is "
-         "enumerated over all subsets/orderings of a base point set. Every call must observe exactly what it observes first in a "
+         "enumerated over all subsets/orderings of a base point set plus far-point-first, reversed and 12 006-point requests; "
+         "one-deviation neighbour configurations are constructed and called around every family's default in four construct/call "
+         "orders; one object is called with nearly-equal requests (times and points within numpy.isclose's tolerances); observations "
+         "include the reported discontinuity locations. Every call must observe exactly what it observes first in a "
          "fresh interpreter. This is model checking of the implementation itself: the transition function is the real code.")
 LEVEL_NOTE = ("trusted: fork() copies all state; the canonical snapshot sees Python-level state of exactpack.* and live objects but "
               "not C-level state inside numpy/scipy (the oracle does not rely on state equality, merging only prunes); Guderley's "
